@@ -417,6 +417,15 @@ pub async fn cmd_revision(message: String, fill_with_args: Vec<String>) -> Resul
         return Ok(());
     }
 
+    // A revision only ever appends: the new version must be greater than every stored one
+    // (saturating_add stops at u32::MAX and would hand out the same version again).
+    if applied_plans.iter().any(|p| p.version >= plan.version) {
+        anyhow::bail!(
+            "cannot create migration version {}: a stored migration already has this or a greater version",
+            plan.version
+        );
+    }
+
     // Fail early: non-nullable FK column cannot be added to an existing table.
     // Even with fill_with, there's no way to guarantee the value references a valid row.
     check_non_nullable_fk_add_columns(&plan)?;
@@ -470,6 +479,14 @@ pub async fn cmd_revision(message: String, fill_with_args: Vec<String>) -> Resul
         config.migration_filename_pattern(),
     );
     let path = migrations_dir.join(&filename);
+
+    // Never replace an existing migration (e.g. a filename pattern without %v and a repeated message).
+    if path.exists() {
+        anyhow::bail!(
+            "migration file {} already exists; refusing to overwrite it (use another message or a migrationFilenamePattern containing %v)",
+            path.display()
+        );
+    }
 
     let schema_url = schema_url_for(format);
     match format {
